@@ -250,3 +250,48 @@ pub fn repeat_parse(args: &[String]) {
     }
     std::fs::write(&args[2], json!({"calls": calls, "mismatches": bad.len(), "first": bad.iter().take(20).collect::<Vec<_>>()}).to_string()).unwrap();
 }
+
+
+// Does the SYNTAX stage accept this token string?  (identifier names distinct; every subset of them tried as initial
+// context, so scoping cannot mask acceptance).  None = the parser panicked.
+pub fn syntax_accepts(kinds: &[&str]) -> Option<bool> {
+    let lex: Vec<String> = kinds.iter().enumerate().map(|(i, k)| lexeme(k, i + 1, None)).collect();
+    let ids: Vec<&str> = kinds.iter().zip(&lex).filter(|(k, _)| **k == "IDENTIFIER").map(|(_, l)| l.as_str()).collect();
+    if ids.len() > 12 {
+        return Some(false);
+    }
+    for mask in (0..(1u32 << ids.len())).rev() {
+        let ctx: Vec<&str> = ids.iter().enumerate().filter(|(j, _)| mask >> j & 1 == 1).map(|(_, s)| *s).collect();
+        match parse_lexemes(kinds, &lex, &ctx) {
+            Parsed::Ok(_) => return Some(true),
+            Parsed::Panic(_) => return None,
+            Parsed::Err(_, ref msg) if mask + 1 == (1u32 << ids.len()) && !msg.contains("already exists") && !msg.contains("not in scope") && !msg.contains("in time") => return Some(false),
+            _ => {}
+        }
+    }
+    Some(false)
+}
+
+// gv accepts <tlc-output with NOPAR lines> <targets.ndjson> <every-k>: one {"id","y","accepted"} per (sampled, distinct) string
+pub fn accepts(args: &[String]) {
+    util::quiet_panics();
+    let every: usize = args[2].parse().unwrap();
+    let mut seen = HashSet::new();
+    let mut ys: Vec<Vec<String>> = vec![];
+    for (i, l) in util::tagged_lines(&args[0], "NOPAR").iter().enumerate() {
+        let rec = util::parse_tlc_line(l, "NOPAR").expect("bad NOPAR line");
+        let y: Vec<String> = rec["y"].as_array().unwrap().iter().map(|k| k.as_str().unwrap().to_string()).collect();
+        if seen.insert(y.join(" ")) && (every <= 1 || i % every == 0) {
+            ys.push(y);
+        }
+    }
+    let res = util::par_map(&ys, |_, y| {
+        let kinds: Vec<&str> = y.iter().map(String::as_str).collect();
+        syntax_accepts(&kinds)
+    });
+    let mut out = String::new();
+    for (i, (y, r)) in ys.iter().zip(res).enumerate() {
+        out += &format!("{}\n", json!({"id": i + 1, "y": y, "accepted": r.unwrap_or(false), "panicked": r.is_none()}));
+    }
+    std::fs::write(&args[1], out).unwrap();
+}
